@@ -5,6 +5,7 @@
 (* the chain grows, forgeries):                                                        *)
 (*    recv(k)      evidence k arrives from a peer        (Reactor.Receive/AddEvidence) *)
 (*    cons(k)      consensus reports evidence k          (AddEvidenceFromConsensus)    *)
+(*                 - for k in RawItems with the stamp consensus gives, not the facts   *)
 (*    check(l)     a proposed block carries list l       (validateBlock/CheckEvidence) *)
 (*    apply(l)     the next block, carrying l, is applied (ApplyBlock: check + Update) *)
 (*    restart      the node restarts                      (NewPool on the same db)     *)
@@ -17,6 +18,9 @@ EXTENDS Evidence, Json
 
 CONSTANTS Items,      \* sequence of evidence records; histories name them by index
           ConsItems,  \* indices consensus may report: real equivocations (the trusted path)
+          RawItems,   \* those of them that consensus hands over with ITS stamp (time off the block time, total of
+                      \* another set), as consensus/state.go tryAddVote does whenever its last-commit votes differ
+                      \* from the block's: the pool has to state the facts of the height itself
           Lists,      \* the block evidence lists tried (sequences of indices)
           L0,         \* height of the pool at the start
           Depth
@@ -33,7 +37,7 @@ ASSUME \A j, k \in Idx : j # k => Items[j] # Items[k]
 ASSUME \A k \in ConsItems : RealEquivocation(Items[k]) /\ StatesFacts(Items[k])
 
 (* the universe, for the driver *)
-ASSUME PrintT(ToJson([items |-> [k \in Idx |-> CompactEv(Items[k])], l0 |-> L0, cons |-> ConsItems]))
+ASSUME PrintT(ToJson([items |-> [k \in Idx |-> CompactEv(Items[k])], l0 |-> L0, cons |-> ConsItems, raw |-> RawItems]))
 
 Init == st = EmptyPool(L0) /\ chain = <<>> /\ hist = <<>>
 
@@ -41,7 +45,7 @@ Step(r, a) == st' = r.st /\ hist' = Append(hist, a \o <<r.res, r.why>>)
 
 Next == /\ Len(hist) < Depth
         /\ \/ \E k \in Idx : Step(Recv(st, Items[k]), <<"recv", k>>) /\ UNCHANGED chain
-           \/ \E k \in ConsItems : Step(Cons(st, Items[k]), <<"cons", k>>) /\ UNCHANGED chain
+           \/ \E k \in ConsItems : Step(ConsS(st, Items[k], k \in RawItems), <<"cons", k>>) /\ UNCHANGED chain
            \/ \E l \in Lists : Step(Check(st, EvList(l)), <<"check", l>>) /\ UNCHANGED chain
            \/ \E l \in Lists \cup {<<>>} :
                  /\ st.h < Top
@@ -65,14 +69,17 @@ FreshWhenCommitted == \A j \in 1..Len(chain) : \A a \in 1..Len(chain[j].l) :
    LET e == Items[chain[j].l[a]] IN EvH(e) < chain[j].h /\ ~Expired(EmptyPool(chain[j].h - 1), EvH(e), e.ts)
 (* bookkeeping *)
 Consistent == /\ st.comm = {Items[k] : k \in Committed} /\ st.pend \cap st.comm = {} /\ st.list \subseteq st.pend
+              /\ st.raw \subseteq st.pend /\ \A e \in st.raw : EvH(e) > st.h   \* raw only while the block is missing
 Inv == OnlyRealEquivocators /\ AtMostOnceInChain /\ FreshWhenCommitted /\ Consistent
 
 (* reachability companions: TLC must REFUTE them (checks/C19.py), otherwise the invariants above are vacuous *)
 NothingCommitted == Committed = {}
 NoExpiredPending == \A e \in st.pend : ~PExpired(st, e)          \* the window of the lazy pruning is reachable
+NoRawRestated == ~(st.raw = {} /\ \E j \in 1..Len(hist) : hist[j][1] = "cons" /\ hist[j][2] \in RawItems /\ hist[j][3] = "added"
+                     /\ EvH(Items[hist[j][2]]) > L0 /\ Items[hist[j][2]] \in st.pend)   \* reported raw, pending, restated
 NoPruning == ~(\E k \in Idx : Items[k] \notin st.pend \cup st.comm /\ \E j \in 1..Len(hist) :
                    hist[j][1] \in {"recv", "cons"} /\ hist[j][2] = k /\ hist[j][3] = "added")   \* added, gone, never committed
 
-Obs(t) == [h |-> t.h, p |-> Ids(t.pend), c |-> Ids(t.comm), g |-> Ids(t.list), q |-> Ids(Proposable(t))]
+Obs(t) == [h |-> t.h, p |-> Ids(t.pend), c |-> Ids(t.comm), g |-> Ids(t.list), q |-> Ids(Proposable(t)), w |-> Ids(t.raw)]
 Dump == PrintT(ToJson([h |-> hist', o |-> Obs(st')]))
 =================================================================================
